@@ -15,6 +15,8 @@ import os, sys, json, time, hashlib, itertools, traceback, multiprocessing, coll
 VERIF = os.path.dirname(os.path.dirname(os.path.abspath(__file__)))
 REPO = os.environ.get('VERIF_REPO', '/repo')
 NPROC = int(os.environ.get('VERIF_JOBS', '16'))
+# evidence and replay artefacts go under OUT (default: /verif itself); seeded-mutation trials point it elsewhere
+OUT = os.environ.get('VERIF_OUT', VERIF)
 
 
 def bind_repo():
@@ -167,7 +169,7 @@ class Run(object):
                 self.harness_errors.append('violation %s did not reproduce on replay (got %s)' % (key, r1))
                 continue
             nviol += 1
-            d = os.path.join(VERIF, 'replays', self.pid)
+            d = os.path.join(OUT, 'replays', self.pid)
             os.makedirs(d, exist_ok=True)
             path = os.path.join(d, sha([key, case])[:16] + '.json')
             with open(path, 'w') as f:
@@ -196,8 +198,8 @@ class Run(object):
         ev = {'property_id': self.pid, 'tier': self.tier, 'seed': self.seed, 'level': level,
               'coverage': cov, 'assumptions': self.assumptions,
               'wall_s': round(time.time() - self.t0, 2), 'violations': nviol}
-        os.makedirs(os.path.join(VERIF, 'evidence'), exist_ok=True)
-        with open(os.path.join(VERIF, 'evidence', self.pid + '.json'), 'w') as f:
+        os.makedirs(os.path.join(OUT, 'evidence'), exist_ok=True)
+        with open(os.path.join(OUT, 'evidence', self.pid + '.json'), 'w') as f:
             json.dump(ev, f, indent=1, default=str)
         for l in lines:
             print(l)
